@@ -71,6 +71,7 @@ func init() {
 				NeedCounters: []string{"split-inside-length-prefix", "split-inside-payload", "one-byte-reads"}},
 			&vexplore.Scenario{Name: "pair-connection-lost-during-a-slow-event-callback", Mode: "enum", Reset: kit.ResetGlobals, Body: func() { c14.SlowHookWith(pair.NewSocket) }, NeedCounters: []string{"reconnected-after-a-loss-during-the-callback"}},
 			&vexplore.Scenario{Name: "inproc-one-message-object-sent-twice", Mode: "enum", Reset: kit.ResetGlobals, Body: sentTwice, NeedCounters: []string{"second-copy-intact"}},
+			&vexplore.Scenario{Name: "large-bodies-sent-from-a-reused-buffer-to-a-slow-peer", Mode: "enum", Reset: kit.ResetGlobals, Body: largeBodiesSent, NeedCounters: []string{"large-bodies-sent-intact"}},
 			&vexplore.Scenario{Name: "large-bodies-byte-api-retained", Mode: "enum", Reset: kit.ResetGlobals, Body: largeBodies, NeedCounters: []string{"large-bodies-intact"}},
 		)
 		for _, k := range []struct {
@@ -646,6 +647,63 @@ func largeBodies() {
 	}
 	kit.CheckKept()
 	kit.Count("large-bodies-intact")
+	kit.Observe("%d", which)
+	kit.Must("Close", func() { _ = s.Close() })
+}
+
+// largeBodiesSent: the sending side of the byte-slice API with bodies around the largest buffer
+// class (65535, 65536, 65537, 70000, 140000) and a few small ones.  The application sends every
+// message from ONE buffer that it refills as soon as Send has returned; the peer is slow (it takes
+// nothing until all Sends have returned - the messages wait in the send queue).  What the peer is
+// then given is what was sent, in order.
+func largeBodiesSent() {
+	which := kit.ChooseFree(3)
+	c := []ctor{pair.NewSocket, push.NewSocket, xpair.NewSocket}[which]
+	s, err := c()
+	must(err, "NewSocket")
+	must(s.SetOption(mangos.OptionWriteQLen, 16), "WriteQLen")
+	ep := vt.Get("larges")
+	must(s.Listen("vt://larges"), "Listen")
+	p := ep.Connect()
+	kit.Quiesce()
+	p.Hold(true)
+	sizes := []int{65536, 10, 65537, 70000, 65535, 140000, 9000, 65537}
+	buf := make([]byte, 140000)
+	fill := func(i, n int) {
+		for j := 0; j < n; j++ {
+			buf[j] = byte(i*37 + j*11 + j/251)
+		}
+	}
+	for i, n := range sizes {
+		fill(i, n)
+		cl := kit.Start("Send", func() (interface{}, error) { return nil, s.Send(buf[:n]) })
+		kit.Quiesce()
+		if !cl.Done() || cl.Err != nil {
+			kit.Failf("send-stuck", "Send %d (%d bytes) with room in the queue: done=%v %s", i, n, cl.Done(), kit.ErrName(cl.Err))
+		}
+		// the buffer is the application's again
+		for j := 0; j < n; j++ {
+			buf[j] = 0xEE
+		}
+	}
+	p.Hold(false)
+	p.Take(len(sizes) + 2)
+	kit.Quiesce()
+	l := p.SentLog()
+	if len(l) != len(sizes) {
+		kit.Failf("lost", "%d large messages were accepted, the peer was given %d", len(sizes), len(l))
+	}
+	for i, n := range sizes {
+		fill(i, n)
+		if got := l[i].Data[l[i].HLen:]; string(got) != string(buf[:n]) {
+			d := 0
+			for d < len(got) && d < n && got[d] == buf[d] {
+				d++
+			}
+			kit.Failf("large-body-changed-after-send", "message %d (%d bytes, sent from a buffer the application refilled after Send returned) arrived as %d bytes, first difference at offset %d", i, n, len(got), d)
+		}
+	}
+	kit.Count("large-bodies-sent-intact")
 	kit.Observe("%d", which)
 	kit.Must("Close", func() { _ = s.Close() })
 }
